@@ -23,10 +23,11 @@ Theorem C02_table_write_invariant : forall fuel t c,
 Proof. exact emit_token_good. Qed.
 Print Assumptions C02_table_write_invariant.
 
-(* A pass that flagged nothing, inserted no node and changed no variable leaves the table unchanged. *)
+(* A pass that found every identifier, changed no symbol value, inserted no node and changed no variable leaves the
+   table unchanged. *)
 Theorem C02_clean_static_stable : forall fuel toks c errs c',
   run_pass fuel toks c = PassOk errs c' ->
-  undefined c' = [] -> node_count (symbols c') = node_count (symbols c) -> g_vch c' = g_vch c ->
+  undefined c' = [] -> changed c' = [] -> node_count (symbols c') = node_count (symbols c) -> g_vch c' = g_vch c ->
   same_vals (symbols c) (symbols c').
 Proof. exact clean_static_stable. Qed.
 Print Assumptions C02_clean_static_stable.
@@ -35,7 +36,7 @@ Print Assumptions C02_clean_static_stable.
    F-C02a): a run that ends in Done ended with a pass that flagged nothing and added no node. *)
 Theorem C02_stop_rule_stable : forall passes fuel o toks cf,
   codegen passes fuel o toks = Done cf ->
-  undefined cf = [] /\
+  (undefined cf = [] /\ changed cf = []) /\
   exists c0, run_pass fuel toks c0 = PassOk [] cf /\ g_trace c0 = [] /\ node_count (symbols cf) = node_count (symbols c0).
 Proof. exact done_is_stable. Qed.
 Print Assumptions C02_stop_rule_stable.
@@ -118,12 +119,19 @@ Example C02_example_shadowed_forward_reference :
             map snd (segment_image c) = [[234; 173; 4; 32; 234]%N].
 Proof. eexists. vm_compute. repeat split. Qed.
 
-(* Known finding F-C02d (Known_stale_symbol_survives): a macro invoked before its definition recycles the `$macro_0` scope of
-   another macro's invocation in an earlier pass; the label left there shadows the outer one and survives in the table.
-   `.define segment {..} / m1() / .macro m0() { sh: nop } / .macro m1() { lda sh } / m0() / sh: nop` -> AD 00 20 EA EA *)
+(* Known finding (Known_stale_symbol_survives): symbols are never removed, so a definition that the last pass no longer
+   executes keeps the value an earlier pass gave it -- the include-guard idiom `.if !defined(x) { x: nop }` (the unit tests
+   rely on it for constants) leaves the label x at the address of a statement that is not in the image, and in the VICE list.
+   The harmful instance found first -- a macro invoked before its definition inherited the labels of another invocation's
+   `$macro_<n>` scope -- is repaired (e323987), see C02_example_macro_before_definition. *)
 Theorem C02_stale_symbol_survives_refuted :
   exists toks c, codegen 10 10 default_options toks = Done c /\ no_silent_change c /\
                  Known_stale_symbol_survives c = true /\
-                 map snd (segment_image c) = [[173; 0; 32; 234; 234]%N] /\ In ([[115; 104]%N], 8196) (vice_symbols c).
+                 map snd (segment_image c) = [[173; 0; 32]%N] /\ In ([[120]%N], 8192) (vice_symbols c).
 Proof. exact stale_symbol_witness. Qed.
 Print Assumptions C02_stale_symbol_survives_refuted.
+
+Example C02_example_macro_before_definition :
+  exists c, codegen 10 10 default_options prog_macro_before_definition = Done c /\
+            Known_stale_symbol_survives c = false /\ map snd (segment_image c) = [[173; 4; 32; 234; 234]%N].
+Proof. exact macro_before_definition_example. Qed.
